@@ -1548,10 +1548,24 @@ func TestVerifC16(t *testing.T) {
 	if vThorough() {
 		corpus = append(corpus, c16Exhaustive()...)
 	}
+	poolCorpus := c16PoolCorpus()
 	n := vN(600)
 	for _, c := range vCases(n) {
 		rnd := vRand(c)
 		var cs c16Case
+		// pool histories (pool_test.go): their corpus sits right after the main corpus; 1 random case in 12
+		if c >= len(corpus) && (c < len(corpus)+len(poolCorpus) || rnd.IntN(12) == 0) {
+			pc := c16PoolGen(rnd)
+			if c < len(corpus)+len(poolCorpus) {
+				pc = poolCorpus[c-len(corpus)]
+			}
+			out.Linef("case %d", c)
+			c16PoolRun(out, pc)
+			out.Linef("nt")
+			out.Linef("end")
+			out.Flush()
+			continue
+		}
 		if c < len(corpus) {
 			cs = corpus[c]
 		} else {
